@@ -258,8 +258,8 @@ def finish(prop, spec, tier, results, herr, wall):
     distinct = {k: len(v) for k, v in sets.items()}
     dn_key = spec.get("distinct_key")
     dn = distinct.get(dn_key, 0) if dn_key else (max(distinct.values()) if distinct else 0)
-    if not dn:
-        dn = int(numeric.get(spec.get("distinct_numeric", "states"), 0))
+    if not dn_key:
+        dn = max(dn, int(numeric.get(spec.get("distinct_numeric", "states"), 0)))
     cov = dict(numeric)
     cov.update({"distinct_" + k: v for k, v in distinct.items()})
     cov["evaluations"] = int(numeric.get("evaluations", 0))
